@@ -440,8 +440,11 @@ impl<'a> Engine<'a> {
                     (Card::Many, Val::List(l)) => match l.len() {
                         0 => "absent",
                         1 => "present",
-                        _ => {
+                        n => {
                             r.note("seen_many", &format!("{}.{}", def.key, f.name));
+                            if n >= 256 {
+                                r.note("lists_of_256_and_more_elements", &format!("{}.{}", def.key, f.name));
+                            }
                             "present"
                         }
                     },
@@ -862,6 +865,15 @@ impl<'a> Engine<'a> {
             for _ in 0..4 {
                 let n = 1 + rng.below(64) as usize;
                 suffixes.push(rng.bytes(n));
+            }
+            // suffixes that take the whole input to and just beyond 64 KiB (sizes are not taken modulo anything), for a
+            // sample of the base values
+            if rng.chance(1, 6) && b.len() < 65536 {
+                for extra in [0usize, 1, 2, 5] {
+                    suffixes.push(vec![0x80; 65536 - b.len() + extra]);
+                }
+                suffixes.push(vec![0x00; 65535]);
+                suffixes.push(vec![0x33; 70001]);
             }
             for s in suffixes {
                 let mut input = b.to_vec();
